@@ -637,8 +637,9 @@ class Parser:
                     quoted = True
                 else:
                     expr = expr[1:]  # remove only $
-                if expr.startswith("(") and expr.endswith(
-                    ")"
+                # (one reference spanning the whole value; "$(A)$(B)" or "$(A)/$(B)" hold several embedded ones)
+                if (
+                    expr.startswith("(") and expr.endswith(")") and "$" not in expr and ")" not in expr[1:-1]
                 ):  # first try to expand as a macro, then as an environment variable, then cause error
                     expr = expr[1:-1]
                     if self.kconfig.variables.get(expr):
@@ -653,7 +654,7 @@ class Parser:
                         )  # macros failed to expand even as environment variable are substituted with empty string
                     else:
                         raise KconfigError(f"{expr}: macro expanded to blank string")
-                elif expr.startswith("{") and expr.endswith("}"):
+                elif expr.startswith("{") and expr.endswith("}") and "$" not in expr and "}" not in expr[1:-1]:
                     # Pure ${NAME} reference spanning the entire content
                     expr = expr[1:-1]
                     return self.create_envvar(expr)
